@@ -423,7 +423,7 @@ Proof.
 Qed.
 
 Lemma incl_add_rep : forall l o, incl l (add_rep l o).
-Proof. intros l [x|]; simpl; [apply incl_appl|]; apply incl_refl. Qed.
+Proof. intros l o. unfold add_rep. apply incl_appl, incl_refl. Qed.
 
 Lemma inv_res : forall s k, Inv s -> Inv (res_step sc s k).
 Proof.
@@ -454,7 +454,7 @@ Proof.
         - rewrite upd_same in H. inversion H; subst p'. assert (r0 = r) by congruence. subst r0.
           intros j g0 Hj Hn0. destruct (Nat.eq_dec j p) as [->|Hjp].
           + assert (g0 = g) by congruence. subst g0. split; [exact Hgo|].
-            intros x Hx. rewrite Hx. simpl. apply in_or_app. right. left. reflexivity.
+            unfold add_rep. apply incl_appr, incl_refl.
           + eapply (stages_done_mono (outs s) (outs s) (d_rep (dk s)) _ r p);
               [apply incl_refl|exact Hrp| | |exact Hn0].
             * eapply (i_disk sc s I); eauto.
@@ -682,12 +682,12 @@ Proof.
       destruct (find_spec sc k) as [r|] eqn:Hf; auto.
       destruct (nth_error (r_stages r) p) as [g|] eqn:Hn; simpl; auto.
       destruct e; simpl; auto.
-      unfold add_rep. destruct (s_rep g) as [y|] eqn:Ey; auto.
-      intros Hin. apply in_app_or in Hin. destruct Hin as [Hin|[<-|[]]]; auto.
+      unfold add_rep.
+      intros Hin. apply in_app_or in Hin. destruct Hin as [Hin|Hin]; auto.
       apply find_spec_in in Hf. destruct Hf as [Hr _].
       unfold resolver_reps. apply in_flat_map. exists r. split; [exact Hr|].
       apply in_flat_map. exists g. split; [eapply nth_error_In; eauto|].
-      rewrite Ey. left. reflexivity.
+      exact Hin.
     + unfold anchor_step. destruct (m_anchor (mm s)); auto.
     + unfold fin_step. destruct (m_fin (mm s)) as [[|[|n]]|]; simpl; auto.
     + auto.
@@ -718,7 +718,7 @@ Proof.
     apply In_nth_error in Hg. destruct Hg as [j Hj].
     assert (Hlt : j < length (r_stages r)) by (apply nth_error_Some; congruence).
     destruct (HD r Hr j g Hlt Hj) as [_ H2]. apply H2.
-    destruct (s_rep g) as [y|]; [|contradiction]. destruct Hx as [<-|[]]. reflexivity.
+    exact Hx.
 Qed.
 
 End InvProofs.
